@@ -497,3 +497,74 @@ def tw_serializer_values(a: str, b: int, has_c: bool, n: int) -> bool:
     """
     DataclassSerializer.serialize({"p": Plain(a=a, b=b)})
     return False
+
+
+def ob_serializer_list_cycles(kind: int, name: str) -> bool:
+    """
+    pre: 0 <= kind <= 2 and len(name) <= 1
+    post: _
+    """
+    if kind == 0:  # a list that contains itself
+        lst = [name]
+        lst.append(lst)
+        payload = lst
+    elif kind == 1:  # outer -> inner -> outer
+        outer, inner = [name], [name]
+        outer.append(inner)
+        inner.append(outer)
+        payload = {"k": outer}
+    else:  # a dataclass reaching a list that contains the dataclass's own container
+        n = Node(name)
+        box = [n]
+        n.children.append(Node("c"))
+        payload = {"box": box, "again": box}
+    out = DataclassSerializer.serialize(payload)
+    return is_json_data(out) and _no_null_keys(out)
+
+
+def tw_serializer_list_cycles(kind: int, name: str) -> bool:
+    """
+    pre: 0 <= kind <= 2 and len(name) <= 1
+    post: _
+    """
+    DataclassSerializer.serialize([name])
+    return False
+
+
+def _factory(extra):
+    """two distinct classes with the same module and qualified name, as a model factory or a re-generated module produces"""
+    import dataclasses as dc
+
+    if extra:
+        return dc.make_dataclass("Model", [("ident", str), ("qty", int)], namespace={"Meta": type("Meta", (), {
+            "key_transform_with_load": {"id": "ident", "qty": "qty"}, "key_transform_with_dump": {"ident": "id", "qty": "qty"}})})
+    return dc.make_dataclass("Model", [("name", str)])
+
+
+_MA, _MB = _factory(False), _factory(True)
+unstructure_to_dict(structure_from_dict({"name": "w"}, _MA))
+unstructure_to_dict(structure_from_dict({"id": "w", "qty": 1}, _MB))
+
+
+def ob_same_qualname_types(first_b: bool, s: str, q: int) -> bool:
+    """
+    pre: len(s) <= 2
+    post: _
+    """
+    docs = [(_MA, {"name": s}), (_MB, {"id": s, "qty": q})]
+    if first_b:
+        docs.reverse()
+    for cls, doc in docs:
+        obj = structure_from_dict(dict(doc), cls)
+        if type(obj) is not cls or unstructure_to_dict(obj) != doc:
+            return False
+    return True
+
+
+def tw_same_qualname_types(first_b: bool, s: str, q: int) -> bool:
+    """
+    pre: len(s) <= 2
+    post: _
+    """
+    structure_from_dict({"name": s}, _MA)
+    return False
